@@ -14,6 +14,11 @@ type GenOpts struct {
 	ExtremePct  int            // probability (percent) of extreme amounts (2^128, 2^255-ish)
 	MaxDt       int            // max seconds per block step
 	NativeToken bool           // include native-token (cosmos message) delegation
+	lastExtreme bool
+	// CapBits > 0 replaces extreme amounts by values below 2^CapBits (exclusion by construction of a
+	// listed known finding); Capped counts how often that happened.
+	CapBits int
+	Capped  *int
 }
 
 func defaultWeights() map[string]int {
@@ -48,6 +53,13 @@ func pow2(n uint) *big.Int { return new(big.Int).Lsh(big.NewInt(1), n) }
 // drawAmount draws an amount biased to the boundaries around `avail` (which may be nil/0).
 func drawAmount(t *rapid.T, g *GenOpts, avail *big.Int, label string) *big.Int {
 	if pct(t, g.ExtremePct, label+"-extreme?") {
+		g.lastExtreme = true
+		if g.CapBits > 0 {
+			if g.Capped != nil {
+				*g.Capped++
+			}
+			return new(big.Int).Sub(pow2(uint(g.CapBits)), big.NewInt(int64(rapid.IntRange(1, 1000).Draw(t, label+"-capdelta"))))
+		}
 		switch rapid.IntRange(0, 3).Draw(t, label+"-extreme") {
 		case 0:
 			return pow2(128)
@@ -170,6 +182,8 @@ func (m *Machine) Draw(t *rapid.T, g *GenOpts) Action {
 	hostile := pct(t, g.HostilePct, "hostile?")
 	v, _ := Observe(m.C)
 	a := Action{Kind: kind}
+	g.lastExtreme = false
+	defer func() {}()
 	actor := func() int { return uniform(t, m.NumActors(), "actor") }
 	op := func() int { return uniform(t, len(m.W.Operators), "op") }
 	anyAsset := func() int { return uniform(t, len(m.W.Cfg.Assets), "asset") }
@@ -354,7 +368,11 @@ func (m *Machine) Draw(t *rapid.T, g *GenOpts) Action {
 	case "optOut":
 		a.Op = op()
 	}
+	if g.lastExtreme {
+		a.Hostile = true
+	}
 	if hostile {
+		a.Hostile = true
 		a.Caller = rapid.IntRange(0, 1).Draw(t, "hostile-caller")
 		switch rapid.IntRange(0, 3).Draw(t, "hostile-kind") {
 		case 0:
@@ -363,7 +381,14 @@ func (m *Machine) Draw(t *rapid.T, g *GenOpts) Action {
 			}
 		case 1:
 			if a.Amount != "" {
-				a.Amount = new(big.Int).Sub(pow2(256), big.NewInt(1)).String()
+				if g.CapBits > 0 {
+					a.Amount = new(big.Int).Sub(pow2(uint(g.CapBits)), big.NewInt(1)).String()
+					if g.Capped != nil {
+						*g.Capped++
+					}
+				} else {
+					a.Amount = new(big.Int).Sub(pow2(256), big.NewInt(1)).String()
+				}
 			}
 		}
 	}
